@@ -5,7 +5,10 @@
 (* race detector.  Clauses (C20 for the node's API, C17 for the keyring):  *)
 (*   NoRace    the detector reported no two unordered accesses, one a      *)
 (*             write, inside the library while the pair ran;               *)
-(*   NoPanic   neither operation panicked (Leave after Shutdown excepted). *)
+(*   NoPanic   neither operation panicked (Leave after Shutdown excepted); *)
+(*   NoDeadlock  when told to stop, both operations came back: no goroutine*)
+(*             of the library was found waiting for a mutex at two looks   *)
+(*             8 s apart.                                                  *)
 (* Conformance: the locking discipline of the model says which pairs are   *)
 (* unordered (expect); a report for a pair the model calls ordered, or no  *)
 (* report where the model expects one, is drift.                           *)
@@ -17,16 +20,19 @@ Trace == ndJsonDeserialize(TraceFile)
 VARIABLES l
 Report(kind, name, e, i, ok) == IF ok THEN TRUE ELSE PrintT(<<kind, name, l, e.case, i>>)
 
-KeyOps == {"GetKeys", "GetKeysRead", "GetPrimaryKey", "AddKey", "UseKey", "RemoveKey"}
-Prop(e) == IF e.a \in KeyOps THEN "C17" ELSE "C20"
+\* the property the run serves: C20 (node API), C17 (keyring), C04 (healthy activity only: a node that deadlocks itself
+\* stops answering and is suspected by its peers although nothing is wrong with it or the network)
+Prop(e) == e.prop
 
 JudgeC(e) ==
   /\ e.detector =>
        \A i \in DOMAIN e.pairs : Report("VERDICT", Prop(e) \o "_NoRace", e, i, FALSE)
   /\ Report("VERDICT", Prop(e) \o "_NoPanicConc", e, 0,
             e.pan = "" \/ (e.a = "Leave" /\ e.b = "Shutdown") \/ (e.a = "Shutdown" /\ e.b = "Leave"))
+  \* no deadlock: when the two operations were told to stop, no goroutine of the library was left waiting for a mutex
+  /\ \A i \in DOMAIN e.stuck : Report("VERDICT", Prop(e) \o "_NoDeadlockConc", e, i, FALSE)
   /\ Report("DRIFT", "lock-discipline", e, 0, e.detector => (e.races = 0 \/ e.expect))
-  /\ (~e.detector => PrintT(<<"VACUOUS", "no race detector">>))
+  /\ ((~e.detector /\ e.prop # "C04") => PrintT(<<"VACUOUS", "no race detector">>))
   /\ PrintT(<<"STAT2", Prop(e) \o "_conc_" \o (IF e.itersA > 0 /\ e.itersB > 0 THEN "ran" ELSE "idle"), 1, 1>>)
 
 TInit == l = 1
